@@ -7,6 +7,7 @@ import (
 	"sort"
 	"strconv"
 	"strings"
+	"sync"
 
 	"github.com/cloudwego/eino/compose"
 	"verifharness/internal/mon"
@@ -68,8 +69,16 @@ type runOut struct {
 	SErr   bool
 	SPanic bool
 	SIntr  string
+	// which node bodies ran (sorted tags) in the Invoke / the Stream call: compared separately (sameTrace)
+	Trace  string
+	STrace string
 	Msg    string // error / panic texts: diagnostics only, never compared
 }
+
+func (a runOut) sameTrace(b runOut) bool { return a.Trace == b.Trace && a.STrace == b.STrace }
+
+// sameAll: results and executed node bodies
+func (a runOut) sameAll(b runOut) bool { return a.same(b) && a.sameTrace(b) }
 
 func (a runOut) same(b runOut) bool {
 	return a.Val == b.Val && a.Err == b.Err && a.Panic == b.Panic && a.Intr == b.Intr &&
@@ -88,7 +97,7 @@ func (a runOut) String() string {
 		}
 		return strconv.Quote(val)
 	}
-	s := "Invoke=" + one(a.Val, a.Err, a.Panic, a.Intr) + " Stream=" + one(a.SVal, a.SErr, a.SPanic, a.SIntr)
+	s := "Invoke=" + one(a.Val, a.Err, a.Panic, a.Intr) + " ran{" + a.Trace + "} Stream=" + one(a.SVal, a.SErr, a.SPanic, a.SIntr) + " ran{" + a.STrace + "}"
 	if a.Msg != "" {
 		s += " [" + a.Msg + "]"
 	}
@@ -124,8 +133,9 @@ func interruptText(err error) string {
 func wrapRunnable(r compose.Runnable[string, string]) runFn {
 	return func(in string) runOut {
 		var out runOut
+		tr, str := &runTrace{}, &runTrace{}
 		p := mon.Safe(func() {
-			v, err := r.Invoke(context.Background(), in)
+			v, err := r.Invoke(context.WithValue(context.Background(), traceKey{}, tr), in)
 			if err != nil {
 				out.Err, out.Msg, out.Intr = true, "invoke: "+firstLine(err.Error()), interruptText(err)
 				return
@@ -139,7 +149,7 @@ func wrapRunnable(r compose.Runnable[string, string]) runFn {
 		var chunks []string
 		var serr error
 		p = mon.Safe(func() {
-			sr, err := r.Stream(context.Background(), in)
+			sr, err := r.Stream(context.WithValue(context.Background(), traceKey{}, str), in)
 			if err != nil {
 				serr = err
 				return
@@ -168,6 +178,7 @@ func wrapRunnable(r compose.Runnable[string, string]) runFn {
 			sort.Strings(chunks)
 			out.SVal = strings.Join(chunks, "\x00")
 		}
+		out.Trace, out.STrace = tr.String(), str.String()
 		return out
 	}
 }
@@ -198,16 +209,45 @@ func newInstance(fe string, state bool) instance {
 
 // ---- node bodies ----------------------------------------------------------
 
+// runTrace records which node bodies ran during one Invoke / Stream call (carried by the call's context,
+// so that a node still running after the call has returned cannot write into a later call's trace).
+type traceKey struct{}
+
+type runTrace struct {
+	mu   sync.Mutex
+	tags []string
+}
+
+func traceAdd(ctx context.Context, tag string) {
+	if t, ok := ctx.Value(traceKey{}).(*runTrace); ok {
+		t.mu.Lock()
+		t.tags = append(t.tags, tag)
+		t.mu.Unlock()
+	}
+}
+
+func (t *runTrace) String() string {
+	t.mu.Lock()
+	tags := append([]string(nil), t.tags...)
+	t.mu.Unlock()
+	sort.Strings(tags)
+	return strings.Join(tags, ",")
+}
+
 func mkLambda(typ, tag string) *compose.Lambda {
 	switch typ {
 	case "i":
-		return compose.InvokableLambda(func(ctx context.Context, in int) (int, error) { return in*3 + 1, nil })
+		return compose.InvokableLambda(func(ctx context.Context, in int) (int, error) { traceAdd(ctx, tag); return in*3 + 1, nil })
 	case "si":
-		return compose.InvokableLambda(func(ctx context.Context, in string) (int, error) { return len(in), nil })
+		return compose.InvokableLambda(func(ctx context.Context, in string) (int, error) { traceAdd(ctx, tag); return len(in), nil })
 	case "is":
-		return compose.InvokableLambda(func(ctx context.Context, in int) (string, error) { return strconv.Itoa(in) + tag, nil })
+		return compose.InvokableLambda(func(ctx context.Context, in int) (string, error) {
+			traceAdd(ctx, tag)
+			return strconv.Itoa(in) + tag, nil
+		})
 	case "m":
 		return compose.InvokableLambda(func(ctx context.Context, in map[string]any) (string, error) {
+			traceAdd(ctx, tag)
 			ks := make([]string, 0, len(in))
 			for k := range in {
 				ks = append(ks, k)
@@ -220,9 +260,12 @@ func mkLambda(typ, tag string) *compose.Lambda {
 			return b.String() + tag, nil
 		})
 	case "S":
-		return compose.InvokableLambda(func(ctx context.Context, in In) (string, error) { return in.X + "|" + in.Y + tag, nil })
+		return compose.InvokableLambda(func(ctx context.Context, in In) (string, error) {
+			traceAdd(ctx, tag)
+			return in.X + "|" + in.Y + tag, nil
+		})
 	}
-	return compose.InvokableLambda(func(ctx context.Context, in string) (string, error) { return in + tag, nil })
+	return compose.InvokableLambda(func(ctx context.Context, in string) (string, error) { traceAdd(ctx, tag); return in + tag, nil })
 }
 
 func preH[T any, S any](mod func(T, int) T) compose.GraphAddNodeOpt {
